@@ -195,6 +195,8 @@ theorem relInv_step (hist : List Ev) (s : S) (e : Ev) (s' : S) (II : IdInv hist 
         simp only [step] at h; split at h
         · simp only [Option.some.injEq] at h; subst h; exact Or.inr hr
         · simp at h
+      | cancelAll => simp only [step, Option.some.injEq] at h; subst h; exact Or.inr hr
+      | restart => simp only [step, Option.some.injEq] at h; subst h; exact Or.inr hr
   · -- the PUBREL is this event
     simp only [isRel] at hrel; subst hrel
     obtain ⟨h1, e1, h2, heq, ⟨pk, hpk, hreq⟩, _⟩ := c1
@@ -399,6 +401,8 @@ theorem slot_step {s s' : S} {e : Ev} (h : step s e = some s') {p : Nat} {sl : S
     · simp only [Option.some.injEq] at h; subst h; exact Or.inr ⟨sl, hs, .same⟩
     · simp at h
 
+  | cancelAll => simp only [step, Option.some.injEq] at h; subst h; exact Or.inr ⟨sl, hs, .same⟩
+  | restart => simp only [step, Option.some.injEq] at h; subst h; exact Or.inr ⟨sl, hs, .same⟩
 theorem consume_okBefore (sl : Slot) (a : Ack) : (consume sl a).okBefore = sl.okBefore := by
   unfold consume; repeat' split
   all_goals rfl
@@ -640,6 +644,8 @@ theorem bodyInv_step (hist : List Ev) (s : S) (e : Ev) (s' : S) (II : IdInv hist
     · simp only [Option.some.injEq] at h; subst h; exact body_keep I rfl (by intro pk he; cases he)
     · simp at h
 
+  | cancelAll => simp only [step, Option.some.injEq] at h; subst h; exact body_keep I rfl (by intro pk he; cases he)
+  | restart => simp only [step, Option.some.injEq] at h; subst h; exact body_keep I rfl (by intro pk he; cases he)
 theorem bodyInv_reach {tr : List Ev} {s : S} (h : run init tr = some s) : BodyInv tr s :=
   inv_reach2 IdInv BodyInv idInv_init (by intro op b h; obtain ⟨pk, hm, _⟩ := h; simp at hm) idInv_step bodyInv_step tr s h
 
